@@ -108,7 +108,11 @@ def enum_from_tangent(tier, seed):
                 continue
             if any(sum(a * b for a, b in zip(l, p)) == 0 for p in pts):
                 continue
-            if tier == "quick" and (li + sum(sub)) % 3:
+            # general position also excludes tangents through a diagonal point of the complete quadrangle: the
+            # degenerate conic with that vertex meets the tangent in a double point, i.e. it is one of the two "solutions"
+            a_, b_, c_, d_ = [[F(x) for x in p] for p in pts]
+            diag = [X.cross(X.cross(p1, p2), X.cross(p3, p4)) for p1, p2, p3, p4 in ((a_, b_, c_, d_), (a_, c_, b_, d_), (a_, d_, b_, c_))]
+            if any(sum(F(x) * y for x, y in zip(l, dp)) == 0 for dp in diag):
                 continue
             yield (sub, l)
 
